@@ -5,7 +5,9 @@ Property theorems only (model and spec: KinModel/Body.lean; helper lemmas: KinMo
 import KinModel.Body
 import KinModel.Lemmas.C06
 import KinModel.Lemmas.C06Text
+import KinModel.Lemmas.C06Dflt
 import KinModel.Gen.BodyDecoders
+import KinModel.Gen.BodyEncoders
 namespace KinModel.Body
 
 /-! ## (T) the decoder registry of the model is the one the source builds -/
@@ -863,5 +865,285 @@ example :
     validateRequestBody registry rb ct bad true = .ok ∧ acceptB registry rb ct bad true = true ∧
     validateRequestBody registry rb (exStr "text/plain") good false = .ok ∧
     validateRequestBody registry ⟨false, [(exStr "application/json", ⟨none, []⟩)]⟩ (exStr "text/plain") good false = .badCT := by decide
+
+/-! ## (e) default-setting (`Options.SkipSettingDefaults`; off = defaults ARE set, the default of openapi3filter)
+
+The property text reads the schema as a request and says nothing about `default`: the specification (`SatReq`,
+`Accept`) ignores the keyword. The code, with `DefaultsSet` installed, injects defaults *while* it validates
+(`visD`). What is proved: with defaults skipped nothing changes (`skipDefaults_is_visit`); with defaults set the
+verdict is still the property's wherever no default fires on the value — any schema, compositions included — or
+the schema is composition-free and every injectable default conforms to its own schema and is not required
+(`defaults_neutral`, `accept_iff_partial_D`); a read-only property never receives its default in a request
+(`readOnly_default_never_injected`, the class of seeded change r3-m2). Where a default does decide the verdict
+(a required property satisfied by its default, a default that violates its own schema, a default injected by one
+`allOf` member and rejected by another, a second `oneOf` member that matches thanks to its default) the verdict
+is the one of the COMPLETED value — that is what C13 demands ("the resulting request validates again") — and lies
+outside the request-side reading of C06: witnesses below, compared model-vs-implementation only in the run. -/
+
+/-- the translator could read the encoder registry of the source -/
+theorem encoder_table_recognised :
+    Gen.bodyEncoders.all (fun r => match r with | .unrecognised _ => false | .enc _ _ => true) = true := by decide
+
+/-- a body encoder exists for exactly the media types that `JSONBodyDecoder` decodes — entry by entry, in the
+order of the source — and all of them are `json.Marshal`: this is `hasEncoder` -/
+theorem encoders_are_the_json_decoders :
+    Gen.bodyEncoders = (registrySrc.filter fun kd => kd.2 == "JSONBodyDecoder").map fun kd => .enc kd.1 "json.Marshal" := by
+  decide
+
+theorem hasEncoder_is_table :
+    registry.all (fun kd => hasEncoder (some kd.2) ==
+      Gen.bodyEncoders.any (fun r => match r with | .enc k _ => k.toList == kd.1 | .unrecognised _ => false)) = true := by
+  decide
+
+/-- **SkipSettingDefaults = true.** Without `DefaultsSet` the value-threading validator `visD` is `visit`: same
+verdict, value untouched — every schema (with or without `default` keywords), every value -/
+theorem skipDefaults_is_visit (exro : Bool) (s : RS) (v : V) (hs : s.wf = true) (hv : v.wf = true) :
+    visD false exro s v = (if visit exro s v then some v else none) :=
+  visD_off exro v hv s hs
+
+/-- the model of `ValidateRequestBody` with defaults skipped is the model without the option -/
+theorem validateRequestBodyD_skip (reg : List (Str × DecK)) (rb : ReqBody) (ct : Str) (b : BodyIn) (exro : Bool) :
+    validateRequestBodyD reg rb ct b exro false = validateRequestBody reg rb ct b exro := by
+  unfold validateRequestBodyD validateRequestBody validateValue
+  rfl
+
+/-- **no default fires ⇒ nothing changes**, for every schema of the fragment (compositions included) -/
+theorem no_fire_no_change (exro : Bool) (s : RS) (v : V) (h : firesD exro s v = false) :
+    visD true exro s v = visD false exro s v :=
+  visD_on_eq_off_of_not_fires exro s v h
+
+/-- a schema without any `default` never fires -/
+theorem no_default_no_fire (exro : Bool) : ∀ s v, hasDflt s = false → firesD exro s v = false := by
+  apply rs_induct_full
+  intro t n r w ml mx props req a items nt oneOf anyOf allOf dflt hp hi hn h1 h2 h3 v hd
+  unfold hasDflt at hd
+  simp only [Bool.or_eq_false_iff] at hd
+  obtain ⟨⟨⟨⟨⟨⟨_, dp⟩, di⟩, dn⟩, d1⟩, d2⟩, d3⟩ := hd
+  have hL : ∀ l : List RS, (∀ x ∈ l, ∀ v, hasDflt x = false → firesD exro x v = false) → hasDfltL l = false →
+      ∀ v, firesAny exro l v = false ∧ firesUpto exro l v = false ∧ firesAll exro l v = false := by
+    intro l hl
+    induction l with
+    | nil => intro _ _; exact ⟨rfl, rfl, rfl⟩
+    | cons x r ih =>
+      intro hd v
+      unfold hasDfltL at hd
+      simp only [Bool.or_eq_false_iff] at hd
+      have hx := fun v => hl x (by simp) v hd.1
+      have ihr := ih (fun y hy => hl y (by simp [hy])) hd.2
+      unfold firesAny firesUpto firesAll firesAllStep
+      refine ⟨by simp [hx v, (ihr v).1], by simp [hx v, (ihr v).2.1], ?_⟩
+      rw [hx v]
+      cases visD true exro x v with
+      | none => rfl
+      | some v' => simp [(ihr v').2.2]
+  have hP : ∀ ps : List (Str × RS), (∀ kp ∈ ps, ∀ v, hasDflt kp.2 = false → firesD exro kp.2 v = false) →
+      hasDfltP ps = false → ∀ kvs, firesProps exro ps kvs = false ∧ injects exro ps kvs = false := by
+    intro ps hps
+    induction ps with
+    | nil => intro _ _; exact ⟨rfl, rfl⟩
+    | cons e r ih =>
+      obtain ⟨k, p⟩ := e
+      intro hd kvs
+      unfold hasDfltP at hd
+      simp only [Bool.or_eq_false_iff] at hd
+      have ihr := ih (fun y hy => hps y (by simp [hy])) hd.2
+      have hpd : p.dflt = none := by
+        cases p; unfold hasDflt at hd; simp only [Bool.or_eq_false_iff] at hd
+        simpa [RS.dflt] using hd.1.1.1.1.1.1.1
+      constructor
+      · unfold firesProps firesPropStep
+        cases hl : lookup k kvs with
+        | none => simp only; exact (ihr kvs).1
+        | some x =>
+          simp only [hps (k, p) (by simp) x hd.1, Bool.false_or]
+          cases visD true exro p x with
+          | none => exact (ihr kvs).1
+          | some x' => exact (ihr _).1
+      · have := (ihr kvs).2
+        unfold injects at this ⊢
+        simp only [List.any_cons, this, Bool.or_false]
+        simp [dfltFor, hpd]
+  have c1 := hL oneOf h1 d1
+  have c2 := hL anyOf h2 d2
+  have c3 := hL allOf h3 d3
+  have cp := hP props hp dp
+  have cn : ∀ v, firesNot exro nt v = false := by
+    intro v
+    cases nt with
+    | none => rfl
+    | some x => unfold firesNot; unfold hasDfltO at dn; exact hn x rfl v dn
+  have ci : ∀ xs, firesItems exro items xs = false := by
+    intro xs
+    cases items with
+    | none => rfl
+    | some it =>
+      unfold firesItems; unfold hasDfltO at di
+      apply List.any_eq_false.mpr
+      intro x _
+      simp [hi it rfl x di]
+  have cown : ∀ v, firesOwn exro (RS.mk t n r w ml mx props req a items nt oneOf anyOf allOf dflt)
+      (firesProps exro props) (firesItems exro items) v = false := by
+    intro v
+    cases v with
+    | obj kvs => simp [firesOwn, RS.props, (cp kvs).2, (cp _).1]
+    | arr xs => simp [firesOwn, ci xs]
+    | null => rfl
+    | bool _ => rfl
+    | int _ => rfl
+    | half _ => rfl
+    | str _ => rfl
+  unfold firesD firesK
+  simp only [cn, (c1 _).1, (c2 _).2.1, (c3 _).2.2, cown, Bool.false_or, Bool.or_false]
+  split
+  · rfl
+  · split
+    · rfl
+    · cases visNot true exro nt v with
+      | false => rfl
+      | true =>
+        simp only [Bool.true_and]
+        split
+        · rfl
+        · split
+          · rfl
+          · split
+            · rfl
+            · split <;> rfl
+
+/-- **C06 under default-setting, schema level.** Where defaults are neutral — no default fires on this value (any
+schema), or the schema is composition-free and its injectable defaults conform and are not required — the
+validator with `DefaultsSet` accepts exactly when the value satisfies the schema read as a request. -/
+theorem defaults_neutral (exro : Bool) (s : RS) (v : V) (hs : s.wf = true) (hv : v.wf = true)
+    (hn : defaultsNeutral exro s v = true) : (visD true exro s v).isSome = true ↔ SatReq exro s v := by
+  rw [visD_neutral exro s v hs hv hn]; exact visit_asreq_iff exro s v
+
+/-- in particular for every schema that declares no default at all -/
+theorem no_default_asreq_iff (exro : Bool) (s : RS) (v : V) (hs : s.wf = true) (hv : v.wf = true)
+    (hd : hasDflt s = false) : (visD true exro s v).isSome = true ↔ SatReq exro s v :=
+  defaults_neutral exro s v hs hv (by simp [defaultsNeutral, no_default_no_fire exro s v hd])
+
+/-- **a read-only property never receives its default in a request** (read-only validation on): whatever the
+other properties and the value are, the key stays absent after the injection loop — so the very next check
+("readOnly property in request") cannot be provoked by the document's own default (class of seeded change r3-m2) -/
+theorem readOnly_default_never_injected (props : List (Str × RS)) (kvs : List (Str × V)) (k : Str) (p : RS)
+    (hn : (keys props).Nodup) (hm : (k, p) ∈ props) (hro : p.ro = true) (habs : lookup k kvs = none) :
+    lookup k (inject false props kvs) = none := by
+  rw [lookup_inject false props hn k kvs, habs, lookup_of_mem_nodup k p props hn hm]
+  simp [dfltFor, reqRO, hro]
+
+/-- … and the keys that were absent and are present afterwards are exactly those of the properties that are not
+read-only-in-request and have a default; present keys (null included, repair c740938) keep their value -/
+theorem inject_spec (exro : Bool) (props : List (Str × RS)) (kvs : List (Str × V)) (k : Str)
+    (hn : (keys props).Nodup) :
+    lookup k (inject exro props kvs) =
+      (match lookup k kvs with
+       | some x => some x
+       | none => (match lookup k props with | some p => dfltFor exro p | none => none)) :=
+  lookup_inject exro props hn k kvs
+
+def exIntD (ro wo : Bool) (d : Option V) : RS := RS.mk (some .integer) false ro wo 0 none [] [] none none none [] [] [] d
+def exObjD (props : List (Str × RS)) (req : List Str) : RS := RS.leaf (some .object) false false false 0 none props req none none
+
+/-- r3-m2 regression: `{a: integer, readOnly, default 1}`; the request `{}` omits `a`: accepted with and without
+default-setting, with and without the exclusion option; as a member of `allOf` / `anyOf` / `oneOf` too; sending
+`a` is rejected as before -/
+theorem readOnly_default_regression :
+    let s := exObjD [(['a'], exIntD true false (some (.int 1)))] []
+    let wrap := fun (k : Nat) => RS.mk (some .object) false false false 0 none [] [] none none none
+      (if k = 0 then [s] else []) (if k = 1 then [s] else []) (if k = 2 then [s] else []) none
+    [s, wrap 0, wrap 1, wrap 2].all (fun s =>
+      (visD true false s (.obj [])).isSome && (visD true true s (.obj [])).isSome && visit false s (.obj []) &&
+      !firesD false s (.obj []) && firesD true s (.obj []) &&
+      !(visD true false s (.obj [(['a'], .int 1)])).isSome && satReqB false s (.obj [])) = true := by decide
+
+/-- a write-only property and a plain property do receive their defaults; the completed value is what the rest of
+the validation sees -/
+example :
+    let s := exObjD [(['a'], exIntD false true (some (.int 1))), (['b'], exIntD false false (some (.int 2)))] [['b']]
+    (match visD true false s (.obj []) with
+     | some v' => V.beq v' (.obj [(['a'], .int 1), (['b'], .int 2)])
+     | none => false) = true ∧
+    (visD false false s (.obj [])).isSome = false := by decide
+
+/-- **witnesses: where a default decides the verdict** (outside `defaultsNeutral`; model ≠ request-side reading):
+(1) a required property satisfied by its default — accepted, the value `{}` does not satisfy `required`;
+(2) a default that violates its own schema — the valid request `{}` is rejected;
+(3) `allOf`: the default injected by the first member is an undeclared key for the second (`additionalProperties:
+    false`) — the valid request `{}` is rejected;
+(4) `oneOf`: the second member matches only thanks to its default — "more than one" — the valid `{"a":5}` is rejected -/
+theorem default_decides_witnesses :
+    let pa := exIntD false false (some (.int 1))
+    let s1 := exObjD [(['a'], pa)] [['a']]
+    let s2 := exObjD [(['a'], exIntD false false (some (.str ['x'])))] []
+    let m1 := RS.leaf none false false false 0 none [(['a'], pa)] [] none none
+    let m2 := RS.leaf none false false false 0 none [] [] (some false) none
+    let s3 := RS.mk (some .object) false false false 0 none [] [] none none none [] [] [m1, m2] none
+    let o1 := RS.leaf none false false false 0 none [(['a'], pa)] [['a']] none none
+    let o2 := RS.leaf none false false false 0 none [(['b'], exIntD false false (some (.int 2)))] [['b']] none none
+    let s4 := RS.mk (some .object) false false false 0 none [] [] none none none [o1, o2] [] [] none
+    ((visD true false s1 (.obj [])).isSome = true ∧ satReqB false s1 (.obj []) = false ∧ defaultsNeutral false s1 (.obj []) = false) ∧
+    ((visD true false s2 (.obj [])).isSome = false ∧ satReqB false s2 (.obj []) = true ∧ defaultsNeutral false s2 (.obj []) = false) ∧
+    ((visD true false s3 (.obj [])).isSome = false ∧ satReqB false s3 (.obj []) = true ∧ defaultsNeutral false s3 (.obj []) = false) ∧
+    ((visD true false s4 (.obj [(['a'], .int 5)])).isSome = false ∧ satReqB false s4 (.obj [(['a'], .int 5)]) = true ∧
+      defaultsNeutral false s4 (.obj [(['a'], .int 5)]) = false) := by decide
+
+/-- non-vacuity of `defaults_neutral`: a default fires and is neutral (optional property, conforming default,
+nested completion) — both verdicts occur -/
+example :
+    let inner := exObjD [(['k'], exIntD false false none), (['m'], exIntD false false (some (.int 7)))] []
+    let s := exObjD [(['o'], inner), (['n'], exIntD false false (some (.int 2)))] [['o']]
+    s.wf = true ∧ firesD false s (.obj [(['o'], .obj [])]) = true ∧ defaultsNeutral false s (.obj [(['o'], .obj [])]) = true ∧
+    (match visD true false s (.obj [(['o'], .obj [])]) with
+     | some v' => V.beq v' (.obj [(['o'], .obj [(['m'], .int 7)]), (['n'], .int 2)])
+     | none => false) = true ∧
+    visit false s (.obj [(['o'], .obj [])]) = true ∧
+    (visD true false s (.obj [])).isSome = false ∧ visit false s (.obj []) = false := by decide
+
+/- Full-strength statement (does NOT hold of the code, see `witness_noBodyEncoder` and `default_decides_witnesses`):
+     (validateRequestBodyD reg rb ct b exro ds).isOk = true ↔ Accept reg rb ct b exro  -/
+
+/-- **C06, main theorem with the option SkipSettingDefaults.** Outside the exclusion classes FormFieldUnparsable
+(#20) and NoBodyEncoder (F-C06-4), inside the model, and where defaults are neutral for the decoded value
+(`caseNeutral`: defaults skipped, or nothing fires, or composition-free with harmless defaults), request-body
+validation accepts exactly when the property says so. -/
+theorem accept_iff_partial_D (reg : List (Str × DecK)) (rb : ReqBody) (ct : Str) (b : BodyIn) (exro ds : Bool)
+    (hmod : validateRequestBodyD reg rb ct b exro ds ≠ .panic ∧ validateRequestBodyD reg rb ct b exro ds ≠ .unmodelled)
+    (hwf : formEncsWF reg rb ct b = true)
+    (h1 : exclFormUnparsable reg rb ct b = false)
+    (h2 : exclNoBodyEncoder reg rb ct b exro ds = false)
+    (hn : caseNeutral reg rb ct b exro ds = true) (hw : caseWF reg rb ct b = true) :
+    (validateRequestBodyD reg rb ct b exro ds).isOk = true ↔ Accept reg rb ct b exro := by
+  have e := validateRequestBodyD_eq reg rb ct b exro ds hmod.2 h2 hn hw
+  rw [e] at hmod ⊢
+  exact accept_iff_partial reg rb ct b exro hmod hwf h1
+
+/-- F-C06-4 (NoBodyEncoder): `b=x` against `{a: integer default 1, b: string}` sent as
+application/x-www-form-urlencoded — the value `{b: "x"}` satisfies the schema, the property accepts; with
+default-setting on the model (as the code) answers "rewriting failed"; with defaults skipped it accepts; the same
+body as JSON is accepted in both settings -/
+theorem witness_noBodyEncoder :
+    let s := exObjD [(exStr "a", exIntD false false (some (.int 1))), (exStr "b", exString)] []
+    let rb : ReqBody := ⟨true, [(exForm, ⟨some s, []⟩)]⟩
+    let b := exBody "b=x" none (some [(exStr "b", [exStr "x"])])
+    let rbJ : ReqBody := ⟨true, [(exStr "application/json", ⟨some s, []⟩)]⟩
+    let bJ := exBody "{\"b\":\"x\"}" (some (.obj [(exStr "b", .str (exStr "x"))])) none
+    exclNoBodyEncoder registry rb exForm b false true = true ∧
+    validateRequestBodyD registry rb exForm b false true = .rewriteErr ∧ acceptB registry rb exForm b false = true ∧
+    validateRequestBodyD registry rb exForm b false false = .ok ∧
+    validateRequestBodyD registry rbJ (exStr "application/json") bJ false true = .ok ∧
+    exclNoBodyEncoder registry rbJ (exStr "application/json") bJ false true = false := by decide
+
+/-- non-vacuity of `accept_iff_partial_D` with default-setting ON: every hypothesis holds, a default fires, both verdicts -/
+example :
+    let s := exObjD [(exStr "a", exIntD false false (some (.int 1))), (exStr "id", exIntD true false (some (.int 9))), (exStr "b", exString)] [exStr "b", exStr "id"]
+    let rb : ReqBody := ⟨true, [(exStr "application/json", ⟨some s, []⟩)]⟩
+    let ct := exStr "application/json"
+    let good := exBody "{\"b\":\"x\"}" (some (.obj [(exStr "b", .str (exStr "x"))])) none
+    let bad := exBody "{}" (some (.obj [])) none
+    caseNeutral registry rb ct good false true = true ∧ caseWF registry rb ct good = true ∧
+    exclNoBodyEncoder registry rb ct good false true = false ∧
+    validateRequestBodyD registry rb ct good false true = .ok ∧ acceptB registry rb ct good false = true ∧
+    caseNeutral registry rb ct bad false true = true ∧
+    validateRequestBodyD registry rb ct bad false true = .schemaErr ∧ acceptB registry rb ct bad false = false := by decide
 
 end KinModel.Body
